@@ -26,7 +26,7 @@ def render(mods, d, cse, outdir, kind="ekf", presentation=None, via_entry=False,
     pres = resolve_presentation(presentation, d)
     model, symtab = make_ui_model(d, ui, container=pres.get("container", set), order=pres.get("order"),
                                   as_string=pres.get("as_string", False), proactive_simplify=pres.get("proactive_simplify", False))
-    pn, sm, sn, cm = ekf_args(d, symtab, order=pres.get("order"))
+    pn, sm, sn, cm = ekf_args(d, symtab, order=pres.get("order"), variety=pres.get("variety"))
     gdir = os.path.join(outdir, "generated", "formak")
     os.makedirs(gdir, exist_ok=True)
     header = os.path.join(gdir, "gen.h")
